@@ -13,7 +13,7 @@ Definition Bk (n : Z) (b : breaker) : Prop :=
   b_n b = n /\ 0 <= b_wpos b /\ 0 <= b_gpos b
   /\ 0 <= fst (b_prevW b) <= fst (b_unusedW b) /\ fst (b_unusedW b) <= b_wpos b /\ fst (b_unusedW b) < n
   /\ 0 <= fst (b_unusedG b) <= b_gpos b /\ fst (b_unusedG b) < n
-  /\ (fst (b_prevW b) < fst (b_unusedW b) \/ fst (b_prevW b) <= 0)
+  /\ (fst (b_prevW b) < n - 1 \/ fst (b_prevW b) <= 0)
   /\ (fst (b_unusedW b) < b_wpos b \/ b_wpos b = 0)
   /\ (b2z (b_isUnusedW b) = 0 \/ (fst (b_unusedW b) = b_wpos b - 1 /\ b_wpos b <= n))
   /\ (b2z (b_isUnusedG b) = 0 \/ (fst (b_unusedG b) = b_gpos b - 1 /\ b_gpos b <= n)).
@@ -194,7 +194,7 @@ Proof.
       * destruct w; cbn in *; lia.
     + cbn [bind fst snd] in H. apply IH in H. destruct H as ((more' & H1) & H2 & H3).
       split; [|split; [|exact H3]].
-      * exists ([run] ++ more'). rewrite H1. destruct w; cbn. rewrite <- app_assoc. reflexivity.
+      * exists ([recompute_advance (w_st w) run] ++ more'). rewrite H1. destruct w; cbn. rewrite <- app_assoc. reflexivity.
       * destruct w; cbn in *; lia.
 Qed.
 
@@ -516,6 +516,16 @@ Proof. intros n b HB H1 H2. unfold Bk in *; cbn. repeat split; try lia. Qed.
 Lemma Bk_mark_grapheme : forall n b, Bk n b -> 1 <= b_gpos b <= n -> fst (b_unusedG b) = b_gpos b - 1 -> Bk n (mark_grapheme_unused b).
 Proof. intros n b HB H1 H2. unfold Bk in *; cbn. repeat split; try lia. Qed.
 
+(* discardWordOption after an option that was just handed out (flag clear) *)
+Lemma Bk_discard : forall n b, Bk n b -> b_isUnusedW b = false -> Bk n (discard_word b).
+Proof. intros n b HB HF. unfold Bk in *; cbn. rewrite HF in *. cbn [b2z] in *. repeat split; try lia. Qed.
+Lemma discard_proj : forall b, b_attrs (discard_word b) = b_attrs b /\ b_n (discard_word b) = b_n b /\ b_wpos (discard_word b) = b_wpos b
+  /\ b_gpos (discard_word b) = b_gpos b /\ b_unusedW (discard_word b) = b_prevW b /\ b_prevW (discard_word b) = b_prevW b
+  /\ b_isUnusedW (discard_word b) = b_isUnusedW b /\ b_unusedG (discard_word b) = b_unusedG b /\ b_isUnusedG (discard_word b) = b_isUnusedG b.
+Proof. intros b. repeat split. Qed.
+Lemma phi_discard : forall n b, phi n (discard_word b) = phi n b /\ psi n (discard_word b) = psi n b.
+Proof. intros. split; reflexivity. Qed.
+
 Ltac bz := repeat match goal with
   | H : ?x = true |- _ => rewrite H in *
   | H : ?x = false |- _ => rewrite H in *
@@ -536,16 +546,16 @@ Lemma Bk_ug_n : forall n b, Bk n b -> 0 <= fst (b_unusedG b) < n /\ 0 <= fst (b_
 Proof. unfold Bk; intros; lia. Qed.
 
 (* the grapheme loop *)
-Lemma inner_loop_J : forall n P0 attrs fuel w lc w' d,
+Lemma inner_loop_J : forall n P0 attrs fuel w wopt lc w' d,
   JT n w -> OrdI w -> NEl lc w -> b_attrs (w_br w) = attrs ->
-  1 <= b_wpos (w_br w) <= n -> fst (b_unusedW (w_br w)) = b_wpos (w_br w) - 1 ->
+  1 <= b_wpos (w_br w) <= n -> fst (b_unusedW (w_br w)) = b_wpos (w_br w) - 1 -> fst wopt < n ->
   (lc_truncating lc = false -> AccI n P0 attrs w) ->
-  inner_loop fuel w lc = Ok (w', d) ->
+  inner_loop fuel w wopt lc = Ok (w', d) ->
   JP n w' /\ NEl lc w' /\ b_attrs (w_br w') = attrs
   /\ (d = false -> pair_ok (w_runs w') n (best_end w') [] (w_idx w'))
   /\ (lc_truncating lc = false -> AccR n P0 attrs w' d).
 Proof.
-  intros n P0 attrs. induction fuel as [|fuel IH]; intros w lc w' d HT HO HN HA HW HU HAcc H; cbn [inner_loop] in H; [discriminate|].
+  intros n P0 attrs. induction fuel as [|fuel IH]; intros w wopt lc w' d HT HO HN HA HW HU HWo HAcc H; cbn [inner_loop] in H; [discriminate|].
   destruct (JT_checkpoint n w HT) as (T1 & Csv & Calt & Cbe & Cbr & Cbest).
   set (w1 := checkpoint w) in *.
   destruct (next_grapheme_break (br_fuel w1) (w_br w1)) as [[b1 ro]| | |] eqn:NG; cbn [bind fst snd] in H; try discriminate.
@@ -561,17 +571,55 @@ Proof.
   destruct (Bk_ug_n n _ Bb1) as (G1 & G2 & G3).
   set (b := w_br w) in *.
   destruct ro as [opt|].
-  2:{ (* no grapheme option: the call returns the best line so far *)
-    cbv beta iota zeta in H. injection H as <- <-.
-    split; [exact (proj1 T2)|]. split; [intros Hlc l Hl; rewrite Q4 in Hl; eapply HN; eauto|]. split; [rewrite Q2; congruence|].
-    split; [intros _; apply JT_post; exact T2|].
-    intros Hlc. specialize (HAcc Hlc). unfold AccR, AccI in *. rewrite Q2, Q6. fold b in HAcc.
-    destruct HAcc as ((A1 & A2) & A3). split.
-    + unfold phi, wmeas in *. rewrite S1, S4. lia.
-    + intros HF. destruct (A3 HF) as [(E1 & E2 & E3)|(E1 & E2)]; [left; exact E1|].
-      destruct (Y ltac:(rewrite HA; exact (proj2 HF)) E1) as (Y1 & Y2 & Y3).
-      right. split; [|exact Y1]. destruct E2 as [E2|E2]; [|lia].
-      unfold PendW in *. rewrite S1, S2, S4. exact E2. }
+  2:{ (* no grapheme option: the end of the loop returns the best line so far, or falls back to the UAX #14 option *)
+    cbv beta iota zeta in H.
+    assert (Rw2 : restore w2 = w2) by (unfold w2, w1; destruct w as [? ? ? ? ? ? ? ? ? [? ? ? ? ?] ?]; reflexivity).
+    assert (AR : forall wx, w_br wx = b1 -> (best_end wx = best_end w \/ has_best w = false) ->
+                 lc_truncating lc = false -> AccR n P0 attrs wx false).
+    { intros wx Bx Ex Hlc. specialize (HAcc Hlc). unfold AccR, AccI in *. rewrite Bx. fold b in HAcc.
+      destruct HAcc as ((A1 & A2) & A3). split.
+      + unfold phi, wmeas in *. rewrite S1, S4. lia.
+      + intros HF. destruct (A3 HF) as [(E1 & E2 & E3)|(E1 & E2)].
+        * destruct Ex as [Ex|Ex]; [left; rewrite Ex; exact E1|].
+          exfalso. rewrite (best_end_no_best w Ex) in E1. destruct HT as ((_ & _ & _ & Hst & _) & _). lia.
+        * destruct (Y ltac:(rewrite HA; exact (proj2 HF)) E1) as (Y1 & Y2 & Y3).
+          right. split; [|exact Y1]. destruct E2 as [E2|E2]; [|lia].
+          unfold PendW in *. rewrite S1, S2, S4. exact E2. }
+    unfold word_fallback in H.
+    destruct (negb (lc_truncating lc) && negb (has_best w2)) eqn:FB.
+    2:{ injection H as <- <-.
+        split; [exact (proj1 T2)|]. split; [intros Hlc l Hl; rewrite Q4 in Hl; eapply HN; eauto|]. split; [rewrite Q2; congruence|].
+        split; [intros _; apply JT_post; exact T2|].
+        intros Hlc. apply AR; [exact Q2|left; exact Q6|exact Hlc]. }
+    apply andb_prop in FB. destruct FB as [FB1 FB2]. apply negb_true_iff in FB1, FB2.
+    rewrite (has_best_same w w2 Q4) in FB2.
+    rewrite Rw2 in H.
+    assert (Hord : s_alt (w_sc w2) <> [] -> lend (w_start w2) (s_alt (w_sc w2)) <= fst wopt).
+    { rewrite Q1. rewrite (JT_no_best_alt n w HT FB2). congruence. }
+    destruct (process_break_option w2 wopt lc) as [[[w3 r] cand]| | |] eqn:PB; cbn [bind] in H; try discriminate.
+    destruct (JP_pbo n w2 wopt lc w3 r cand (proj1 T2) HWo Hord PB) as (P3 & F3 & BE3 & LE3 & C3 & L3).
+    destruct F3 as (_ & _ & F3s & _ & _ & _ & F3b & F3v & F3best).
+    rewrite Q2 in F3b. rewrite Q5 in F3v. rewrite Q4 in F3best. rewrite Q3 in F3s. rewrite Q6 in BE3.
+    destruct (restore_proj w3) as (R1 & R2 & R3 & R4).
+    cbv beta iota zeta in H.
+    assert (Hcase : (r = BreakInvalid /\ w' = restore w3 /\ d = false) \/ (r <> BreakInvalid /\ w' = mark_best w3 [cand] /\ d = false)).
+    { destruct r; injection H as <- <-; first [left; repeat split; reflexivity | right; repeat split; try reflexivity; discriminate]. }
+    clear H. destruct Hcase as [(Hr & -> & ->)|(Hr & -> & ->)].
+    - (* rejected again: nothing recorded *)
+      pose proof (JT_restore n w3 P3) as T4.
+      split; [exact (proj1 T4)|]. split; [intros Hlc l Hl; rewrite R4, F3best in Hl; eapply HN; eauto|].
+      split; [rewrite R2, F3b; congruence|]. split; [intros _; apply JT_post; exact T4|].
+      intros Hlc. apply AR; [rewrite R2; exact F3b|left; rewrite best_end_restore; exact BE3|exact Hlc].
+    - (* the UAX #14 option is recorded *)
+      destruct (C3 Hr) as (C31 & C32 & C33). rewrite Q3 in C31.
+      assert (Hsv : lend (w_start w3) (s_save (w_sc w3)) <= fst wopt + 1).
+      { rewrite F3v, F3s, (JT_no_best_alt n w HT FB2). unfold lend; cbn. lia. }
+      destruct (JT_mark_best n w3 cand (fst wopt + 1) P3 C33 C32 Hsv ltac:(lia)) as [T4 BE4].
+      destruct (mark_best_proj w3 [cand]) as (M1 & M2 & M3 & M4).
+      split; [exact (proj1 T4)|].
+      split; [intros _ l Hl; rewrite M4 in Hl; injection Hl as <-; destruct (s_alt (w_sc w3)); discriminate|].
+      split; [rewrite M2, F3b; congruence|]. split; [intros _; apply JT_post; exact T4|].
+      intros Hlc. apply AR; [rewrite M2; exact F3b|right; exact FB2|exact Hlc]. }
   destruct X as (X1 & X2 & X3 & X4 & X5 & X6 & X7 & X8).
   assert (X1' : fst opt = fst (b_unusedG b1)) by (rewrite X1; reflexivity).
   assert (Hord : s_alt (w_sc w2) <> [] -> lend (w_start w2) (s_alt (w_sc w2)) <= fst opt).
@@ -604,7 +652,7 @@ Proof.
   assert (HBr : has_best (restore w3) = has_best w) by (apply has_best_same; rewrite R4; exact F3best).
   destruct r.
   - (* BreakInvalid *)
-    apply (IH (restore w3) lc w' d); auto.
+    apply (IH (restore w3) wopt lc w' d); auto.
     + apply JT_restore; exact P3.
     + unfold OrdI. rewrite R1, R2, R3, F3v, F3s, F3b. intros Hne. destruct (HO Hne) as [O|O]; fold b in O; [left; rewrite S3; exact O|right; lia].
     + intros Hlc l Hl. rewrite R4, F3best in Hl. eapply HN; eauto.
@@ -654,7 +702,7 @@ Proof.
     pose proof (JT_set_br n _ _ T4 Mw) as T5.
     destruct (set_br_proj (mark_best w3 [cand]) (mark_word_unused b1)) as (U1 & U2 & U3 & U4 & U5).
     destruct (chain_app_lend _ _ _ _ C33 C32) as [CL _].
-    apply (IH (set_br (mark_best w3 [cand]) (mark_word_unused b1)) lc w' d); auto.
+    apply (IH (set_br (mark_best w3 [cand]) (mark_word_unused b1)) wopt lc w' d); auto.
     + unfold OrdI. rewrite U1, U2, U3, M1, M3. cbn. intros _. right. lia.
     + intros Hlc l Hl. rewrite U4, M4 in Hl. injection Hl as <-. destruct (s_alt (w_sc w3)); discriminate.
     + rewrite U2; cbn; congruence.
@@ -757,12 +805,12 @@ Proof.
               b_prevW (w_br wx) = b_prevW b1 -> b_attrs (w_br wx) = attrs -> b_wpos (w_br wx) = b_wpos b1 ->
               b_unusedW (w_br wx) = b_unusedW b1 -> NEl lc wx ->
               (lc_truncating lc = false -> AccI n P0 attrs (restore wx)) ->
-              inner_loop (br_fuel wx) (restore wx) lc = Ok (w', d) ->
+              inner_loop (br_fuel wx) (restore wx) opt lc = Ok (w', d) ->
               JP n w' /\ NEl lc w' /\ b_attrs (w_br w') = attrs
               /\ (d = false -> pair_ok (w_runs w') n (best_end w') [] (w_idx w'))
               /\ (lc_truncating lc = false -> AccR n P0 attrs w' d)).
   { intros wx Px Sx Stx Pwx Ax Wx Ux Nx Accx Hx. destruct (restore_proj wx) as (Rx1 & Rx2 & Rx3 & Rx4).
-    eapply inner_loop_J; [apply JT_restore; exact Px| | | | | |exact Accx|exact Hx].
+    eapply (inner_loop_J n P0 attrs _ _ opt); [apply JT_restore; exact Px| | | | | |lia|exact Accx|exact Hx].
     - unfold OrdI. rewrite Rx1, Rx2, Rx3, Sx, Stx, Pwx. intros Hne. left. destruct (HO Hne) as [O1 O2]. fold b in O1, O2.
       destruct (b_isUnusedW b) eqn:FB; [cbn in O2; lia|]. rewrite (X9 eq_refl). exact O1.
     - intros Hlc l Hl. rewrite Rx4 in Hl. eapply Nx; eauto.
@@ -770,16 +818,26 @@ Proof.
     - rewrite Rx2, Wx. lia.
     - rewrite Rx2, Wx, Ux. lia. }
   destruct r.
-  - (* BreakInvalid *)
-    apply (IH (restore w3) lc w' d); auto.
-    + apply JT_restore; exact P3.
-    + unfold OrdO. rewrite R1, R2, R3, F3v, F3s, F3b, FW. intros Hne. destruct (HO Hne) as [O1 O2]. fold b in O1. split; [lia|reflexivity].
-    + intros Hlc l Hl. rewrite R4, F3best in Hl. eapply HN; eauto.
-    + rewrite R2, F3b. congruence.
-    + intros Hlc. pose proof (HAcc Hlc) as ((A1 & A2) & _). fold b in A1, A2. unfold AccO. rewrite R2, F3b, best_end_restore, BE3, HBr, FW.
+  - (* BreakInvalid: the option is discarded *)
+    cbv beta iota zeta in H. rewrite R2, F3b in H.
+    destruct (set_br_proj (restore w3) (discard_word b1)) as (D1 & D2 & D3 & D4 & D5).
+    assert (HBd : has_best (set_br (restore w3) (discard_word b1)) = has_best w).
+    { rewrite (has_best_same (restore w3) _ D4). exact HBr. }
+    apply (IH (set_br (restore w3) (discard_word b1)) lc w' d); auto.
+    + apply JT_set_br; [apply JT_restore; exact P3|apply Bk_discard; assumption].
+    + unfold OrdO. rewrite D1, D2, D3, R1, R3, F3v, F3s. cbn [discard_word b_unusedW b_isUnusedW]. rewrite FW.
+      intros Hne. destruct (HO Hne) as [O1 O2]. fold b in O1, O2.
+      destruct (b_isUnusedW b) eqn:FB; [cbn in O2; lia|]. rewrite (X9 eq_refl). split; [exact O1|reflexivity].
+    + intros Hlc l Hl. rewrite D4, R4, F3best in Hl. eapply HN; eauto.
+    + rewrite D2. cbn. congruence.
+    + intros Hlc. pose proof (HAcc Hlc) as ((A1 & A2) & _). fold b in A1, A2. unfold AccO.
+      rewrite D2, best_end_set_br, best_end_restore, BE3, HBd. rewrite (proj1 (phi_discard n b1)).
+      cbn [discard_word b_isUnusedW]. rewrite FW.
       split; [split; [lia|reflexivity]|].
-      intros HF. right. destruct (HFin Hlc HF) as [E1 E2]. split; [apply PW1|apply PG1; exact E2].
-      intros E; apply (L3 E); reflexivity.
+      intros HF. right. destruct (HFin Hlc HF) as [E1 E2]. split.
+      * assert (PWx : PendW n b1) by (apply PW1; intros E; apply (L3 E); reflexivity).
+        unfold PendW in *. cbn. rewrite FW in *. cbn [b2z] in *. destruct PWx as [PWx|PWx]; [left; exact PWx|lia].
+      * pose proof (PG1 E2) as PGx. unfold PendG in *. cbn. exact PGx.
   - (* EndLine *)
     cbv beta iota zeta in H. injection H as <- <-. assert (Ht : lc_truncating lc = true) by (apply K3; left; reflexivity).
     destruct (C3 ltac:(discriminate)) as (C31 & C32 & C33).
